@@ -57,6 +57,7 @@ def tasks(tier):
     ts.append(("small",))
     for ct in ("std", "range"):
         ts.append(("long", ct))
+        ts.append(("xl", ct))
     return ts
 
 
@@ -128,6 +129,8 @@ def run_task(task, acc):
         ct = task[1]
 
         def gen():
+            if False:
+                yield None
             x = alpha.debruijn(SIGMA, 4)
             gaps_r = [60] * len(x)
             gaps_i = [(60, 120, 300, 60, 60)[i % 5] for i in range(len(x))]
@@ -136,6 +139,17 @@ def run_task(task, acc):
                     for mo, mp in (MINS if tp else MINS[:1]):
                         for s, f in ((0.75, 0.25), (2.5, 1.0), (0.25, 2.5), (1.0, 1.0)):
                             yield dict(x=list(x), gaps=gaps, check_type=ct, suspect=s, fail=f, test_period=tp, min_obs=mo, min_period=mp)
+        run_cases(acc, gen(), check_case)
+    elif kind == "xl":
+        ct = task[1]
+
+        def gen():
+            x = alpha.xl(SIGMA, 6000)
+            gaps_i = [(60, 120, 300, 60, 60)[i % 5] for i in range(len(x))]
+            for gaps in ([60] * len(x), gaps_i):
+                for tp, mo, mp in ((None, None, None), (120, None, None), (600, 3, None), (90, None, 60)):
+                    for s, f in ((0.75, 0.25), (0.25, 2.5)):
+                        yield dict(x=list(x), gaps=gaps, check_type=ct, suspect=s, fail=f, test_period=tp, min_obs=mo, min_period=mp)
         run_cases(acc, gen(), check_case)
     elif kind == "small":
         def gen():
